@@ -2651,3 +2651,250 @@ def c15_ext(ctx, prop):
      bounds="every ASCII text of 0..=11 chars (to_lowercase is modelled for ASCII only)")
 def c15_protocol(ctx, prop):
     return run_text_funcs(ctx, prop, ["trim_protocol"], 11, 0, "c15_protocol_text")
+
+
+# ------------------------------------------------------------------------------------------------
+# C17: sys::expand on text with a symbolic text environment
+# ------------------------------------------------------------------------------------------------
+EXPAND_INLINE = [
+    (rx(r"^<Matches<'_, char> as (?:core::iter::)?IteratorExt>::some$"),
+     lambda mir, c, m: mir.get(r"^fn core::iter::<impl at src/core/iter\.rs[^>]*>::some\(")),
+    (rx(r"^<Peekable<Chars<'_>> as (?:core::)?(?:peekable::)?PeekableExt<Chars<'_>>>::take_while_p::<.*>$"),
+     lambda mir, c, m: mir.get(r"^fn (?:core::)?peekable::<impl at src/core/peekable\.rs[^>]*>::take_while_p\(")),
+    (rx(r"^<PeekingTakeWhile as Iterator>::next$"),
+     lambda mir, c, m: mir.get(r"^fn (?:core::)?peekable::<impl at src/core/peekable\.rs[^>]*>::next\(")),
+    (rx(r"^(?:sys::fs::path::)?home_dir$"), lambda mir, c, m: mir.get(r"^fn sys::fs::path::home_dir\(\)")),
+]
+
+D_TILDE, D_DOLLAR, D_LB, D_RB = ord("~"), ord("$"), ord("{"), ord("}")
+
+
+def expand_oracle(ex, st, s, tenv):
+    """Returns ('ok', chars) | ('err',) | ('skip',) following the statement; 'skip' = syntax the statement
+    does not define (unbalanced braces, '$' inside an environment value)."""
+    isc = lambda c, k: ex.decide(st, TP.is_ch(c, k))
+    tildes = [i for i, c in enumerate(s) if isc(c, D_TILDE)]
+    if len(tildes) > 1:
+        return ("err",)
+    cur = list(s)
+    if len(tildes) == 1:
+        if tildes[0] != 0 or (len(s) > 1 and not isc(s[1], TP.SLASH)):
+            return ("err",)
+        is_set, home = tenv.lookup(ex, st, [TP.ch(ord(x)) for x in "HOME"])
+        if not ex.decide(st, is_set):
+            return ("err",)
+        if any(isc(c, D_DOLLAR) for c in home):
+            return ("skip",)
+        if len(s) == 1:
+            cur = list(home)
+        else:
+            rest = list(s[2:])
+            while rest and isc(rest[0], TP.SLASH):
+                rest = rest[1:]
+            buf = TP.PathBufT(home)
+            TP.push_text(ex, st, buf, rest)
+            # mash re-collects the components
+            b2 = TP.PathBufT([])
+            for t in TP.tokenize(ex, st, buf.chars):
+                TP.push_text(ex, st, b2, t[0].text)
+            cur = b2.chars
+    if not any(isc(c, D_DOLLAR) for c in cur):
+        return ("ok", cur)
+    out = TP.PathBufT([])
+    for comp, a, b in TP.tokenize(ex, st, cur):
+        if comp.kind != NORMAL:
+            TP.push_text(ex, st, out, comp.text)
+            continue
+        t, i, acc = comp.text, 0, []
+        while i < len(t):
+            if not isc(t[i], D_DOLLAR):
+                if isc(t[i], D_LB) or isc(t[i], D_RB):
+                    return ("skip",)
+                acc.append(t[i])
+                i += 1
+                continue
+            i += 1
+            if i == len(t):
+                return ("err",)  # empty variable name
+            braced = isc(t[i], D_LB)
+            if braced:
+                i += 1
+            name = []
+            while i < len(t) and not isc(t[i], D_DOLLAR) and not isc(t[i], D_RB) and not isc(t[i], D_LB):
+                name.append(t[i])
+                i += 1
+            if i < len(t) and isc(t[i], D_LB):
+                return ("skip",)
+            if braced:
+                if i < len(t) and isc(t[i], D_RB):
+                    i += 1
+                else:
+                    return ("skip",)  # unterminated brace: not defined by the statement
+            elif i < len(t) and isc(t[i], D_RB):
+                return ("skip",)
+            if not name:
+                return ("err",)
+            is_set, val = tenv.lookup(ex, st, name)
+            if not ex.decide(st, is_set):
+                return ("err",)
+            if any(isc(c, D_DOLLAR) for c in val):
+                return ("skip",)
+            acc += val
+        TP.push_text(ex, st, out, acc)
+    return ("ok", out.chars)
+
+
+def run_expand(ctx, prop, nmax, vlen, tag="c17_expand", nmin=0):
+    t0 = time.time()
+    solver = ctx.solver(tag)
+    tenv = M.TextEnv(solver, vlen)
+    models = M.make_expand_models(tenv) + TP.make_textpath_models() + make_pathtext_models()
+    ex = new_executor(ctx, solver, models, EXPAND_INLINE + COMPONENT_INLINE + RIVIA_INLINE + PATHTEXT_INLINE + GENERIC_PATH_INLINE,
+                      max_block_visits=8 * nmax + 40)
+    ex.enum_hook = TP.text_enum_hook
+    fn = ctx.mir.get(r"^fn sys::fs::path::expand\(_1: T\)")
+    ob = Obl()
+    unit = dict(status="pass", failures=[])
+    for n in range(nmin, nmax + 1):
+        chars, cons = sym_text(solver, "ex%d_%d" % (n, vlen), n)
+        cons = cons + ["(not (= %s #x00000000))" % c.v for c in chars]
+        g = {"s": chars}
+
+        def cex(st, extra, chars=chars):
+            m = text_model(ex, st, {"s": chars}, extra)
+            return m
+
+        def on_path(st, n=n, chars=chars):
+            cf = lambda extra: cex(st, extra)
+            if st.panic or st.bound_hit:
+                ob.total += 1
+                ob.failures.append(dict(kind="panic" if st.panic else "bound", where="sys::expand", cex=cf([]), st_pc=list(st.pc),
+                                        desc="C12: sys::expand panics/loops: %s" % (st.panic or st.bound_hit)))
+                return
+            kind, txt = result_text(st.retval)
+            o = expand_oracle(ex, st, chars, tenv)
+            if o[0] == "skip":
+                return
+            if o[0] == "err":
+                ob.prove(ex, st, "C17: expand fails rather than guessing (more than one '~', '~' not at the start, empty variable name, unset variable) (n=%d)" % n,
+                         B(kind == "err"), cf) or ob.failures[-1].update(st_pc=list(st.pc), want=None)
+            else:
+                if kind != "ok":
+                    ob.total += 1
+                    ob.failures.append(dict(kind="functional", where="sys::expand", cex=cf([]), st_pc=list(st.pc), want=o[1],
+                                            desc="C17: expand fails on an expression the statement defines (n=%d)" % n))
+                else:
+                    ob.prove(ex, st, "C17: expand substitutes ~ and $NAME/${NAME} exactly (n=%d)" % n, text_eq(txt, o[1]), cf) or \
+                        ob.failures[-1].update(st_pc=list(st.pc), want=o[1])
+            if len(ob.samples) < 4 and n == nmax:
+                m = cf([])
+                if m:
+                    ob.samples.append(dict(obligation="expand(s) == oracle", s=m["s"], oracle=o[0]))
+
+        st0 = ex.start(fn, [BoxRef(M.SStr(chars))])
+        st0.pc = cons
+        ex.explore(st0, on_path)
+    # replay: environment reconstructed from the model of the uninterpreted functions is not available
+    # through get-value of applications we did not name, so the replay sets every variable that occurs
+    # in the counterexample text according to the model of the applied terms
+    seen = set()
+    for f in ob.failures:
+        if f["kind"] == "bound" or f["cex"] is None:
+            unit["status"], unit["why"] = "inconclusive", f["desc"]
+            continue
+        s = f["cex"]["s"]
+        if s in seen or len(seen) >= 4:
+            continue
+        seen.add(s)
+        src, note = expand_replay_src(ex, tenv, f, s)
+        r = native_test(src, ctx.logdir, "%s_%d" % (tag, len(seen)))
+        reproduced = r["ran"] and r["failed"] > 0
+        rec = dict(kind=f["kind"], desc='"%s" s=%r %s' % (f["desc"], s, note), where="sys::expand", reproduced=reproduced,
+                   replay_outcome=r["out"][-400:])
+        if reproduced:
+            rec["replay"] = save_replay(prop, tag, src, f["desc"], dict(failed=r["failed"]))
+        unit["failures"].append(rec)
+        unit["status"] = "violation"
+    return finish(unit, ex, solver, ob, t0, dict(models_used="text-level std::path + str models; environment = uninterpreted functions of the variable name (set?, value of %d chars); Peekable<Chars>; rivia's take_while_p/PeekingTakeWhile::next executed from MIR" % vlen))
+
+
+def expand_replay_src(ex, tenv, f, s):
+    """Concrete environment for the replay: evaluate the oracle concretely with a recording environment
+    whose answers come from the solver model (same path condition)."""
+    import re as _re
+    pc = f.get("st_pc", [])
+    fixed = ["(= %s (_ bv%d 32))" % (c, ord(ch_)) for c, ch_ in []]
+    names = set(_re.findall(r"\$\{?([^${}/]*)\}?", s)) | {"HOME"}
+    envd = {}
+    for nm in names:
+        if nm == "" or "\x00" in nm:
+            continue
+        L = len(nm)
+        if L not in tenv.decl:
+            envd[nm] = None
+            continue
+        argt = " ".join("(_ bv%d 32)" % ord(c) for c in nm)
+        terms = ["(envset_%d %s)" % (L, argt)] + ["(envval_%d_%d %s)" % (L, i, argt) for i in range(tenv.vlen)]
+        # bind the symbolic text to the counterexample so the model talks about the same names
+        r, model = ex.solver.check(pc + ["true"], want_model=terms)
+        if r != "sat":
+            envd[nm] = None
+            continue
+        if parse_smt_int(model[terms[0]]):
+            envd[nm] = "".join(chr(parse_smt_int(model[t]) or 0x61) for t in terms[1:])
+        else:
+            envd[nm] = None
+    sets = "".join('    %s;\n' % ('std::env::set_var(%s, %s)' % (rs_str(k), rs_str(v)) if v is not None else 'std::env::remove_var(%s)' % rs_str(k))
+                   for k, v in sorted(envd.items()) if "=" not in k)
+    exp = py_expand(s, envd)
+    body = ('    assert!(got.is_err(), "C17: expected an error, got {:?}", got);\n' if exp is None else
+            '    assert_eq!(got.expect("C17: expected Ok").to_str().unwrap(), %s, "C17: expand");\n' % rs_str(exp))
+    src = "use rivia::prelude::*;\n#[test]\nfn replay_expand() {\n    // %s\n%s    let got = sys::expand(%s);\n%s}\n" % (
+        f["desc"], sets, rs_str(s), body)
+    return src, "env=%r" % envd
+
+
+def py_expand(s, env):
+    """concrete reference of the statement (None = error)"""
+    class D:
+        def decide(self, st, c):
+            assert c.concrete
+            return c.v
+
+    class E:
+        vlen = 0
+
+        def lookup(self, ex, st, name):
+            nm = "".join(chr(c.v) for c in name)
+            v = env.get(nm)
+            return B(v is not None), [BV(32, False, ord(x)) for x in (v or "")]
+    o = expand_oracle(D(), None, [BV(32, False, ord(c)) for c in s], E())
+    if o[0] == "ok":
+        return "".join(chr(c.v) for c in o[1])
+    return None
+
+
+EXPAND_FUNCS = ["sys::expand (real MIR)", "sys::{has_prefix, mash, home_dir} and <Path|OsStr as ToStringExt>::to_string (real MIR, inlined)",
+                "PeekableExt::take_while_p, PeekingTakeWhile::next, IteratorExt::some (real MIR, inlined)"]
+
+
+def _mk_expand(n0, n1, vlen, tier):
+    @job("c17_expand_n%d_%d_v%d" % (n0, n1, vlen), ["C17", "C12"], tier, functions=EXPAND_FUNCS,
+         bounds="every text of %d..=%d Unicode scalars (no NUL); environment: every variable (HOME included) unset or set to any value of %d chars" % (n0, n1, vlen))
+    def f(ctx, prop):
+        u = run_expand(ctx, prop, n1, vlen, nmin=n0, tag="c17_expand_n%d_%d_v%d" % (n0, n1, vlen))
+        if (n0, vlen) == (0, 1):
+            u["planted_mutants"] = planted_mutants(ctx, lambda: run_expand(ctx, prop, 2, 1, tag="c17_plant"), sites=(0, 1, 2, 3, 4, 5))
+        return u
+    return f
+
+
+_mk_expand(0, 4, 1, "quick")
+_mk_expand(5, 5, 1, "quick")
+_mk_expand(0, 4, 2, "quick")
+_mk_expand(0, 4, 0, "quick")
+_mk_expand(6, 6, 1, "thorough")
+_mk_expand(7, 7, 1, "thorough")
+_mk_expand(5, 5, 2, "thorough")
+_mk_expand(6, 6, 2, "thorough")
+_mk_expand(5, 6, 0, "thorough")
